@@ -21,7 +21,7 @@ from lib.hx import harness, pick, pickb, done, tier, PART, note, known, sample
 PROPERTY = "C10"
 LEVEL = "exploration"
 ASSUMPTIONS = [
-    "narrow claim: one hostile string from a menu of 25, planted in one of 15 places of a fixed two-module project, 5 docformats; nothing is claimed for other inputs",
+    "narrow claim: one hostile string from a menu of 25, planted in one of 16 places of a fixed two-module project, 5 docformats; nothing is claimed for other inputs",
     "reST raw / include directives are excluded by the statement and not used",
     "well-formedness is judged by expat (xml.etree) after removing characters that are illegal in XML 1.0",
 ]
@@ -42,10 +42,10 @@ HOSTILE = [
     "x`` `click <javascript:alert(1)>`_ ``y", " `click <javascript:alert(1)>`_ ", "a``` :sup:`b` ```c", "x\\",
 ]
 DIRECTIVE_STRINGS = range(16, 25)
-DOC_PLACES = {"moddoc", "funcdoc", "classdoc", "attrdoc", "field_param", "field_return", "field_raises", "attr_href", "attr_alt"}
+DOC_PLACES = {"moddoc", "funcdoc", "classdoc", "attrdoc", "field_param", "field_return", "field_raises", "attr_href", "attr_alt", "xref_label"}
 NH = len(HOSTILE)
 FORMATS = ["epytext", "restructuredtext", "google", "numpy", "plaintext"]
-PLACES = ["moddoc", "funcdoc", "classdoc", "attrdoc", "field_param", "field_return", "field_raises", "const", "default", "annotation", "decorator", "base", "attr_href", "attr_alt", "deprecated"]
+PLACES = ["moddoc", "funcdoc", "classdoc", "attrdoc", "field_param", "field_return", "field_raises", "const", "default", "annotation", "decorator", "base", "attr_href", "attr_alt", "deprecated", "xref_label"]
 NP = len(PLACES)
 _ILLEGAL = re.compile("[\x00-\x08\x0b\x0c\x0e-\x1f￾￿]")
 
@@ -82,6 +82,9 @@ def gen(fmt, place, s):
         fdoc += "\n\n" + ("See U{the page<http://example.com/?q=%s>} now." % s if fmt == "epytext" else "See `the page <http://example.com/?q=%s>`_ now." % s if fmt != "plaintext" else s)
     if place == "attr_alt":
         fdoc += "\n\n" + ("See U{%s} now." % s if fmt == "epytext" else ".. image:: logo.png\n   :alt: %s\n\nAfter." % s if fmt != "plaintext" else s)
+    if place == "xref_label":
+        # the LABEL of a cross-reference with an explicit target (rendered by pydoctor's own reference handling, not by docutils)
+        fdoc += "\n\n" + ("See L{%s <deco>} now." % s if fmt == "epytext" else "See `%s <deco>` now." % s if fmt != "plaintext" else s)
     default = lit(s) if place == "default" else "1"
     annotation = lit(s) if place == "annotation" else "int"
     deco = "@deco(%s)\n" % lit(s) if place == "decorator" else "@deco(1)\n"
@@ -144,7 +147,7 @@ def check_markup(fmt, place, hi):
     # gives meaning to (colons, dashes, brackets, whitespace) is the same in both renderings
     benign = re.sub("[<>&\"']", "x", s)
     has_control = _ILLEGAL.search(s) is not None
-    if place in ("attr_href", "attr_alt") and re.search("[<>]", s):
+    if place in ("attr_href", "attr_alt", "xref_label") and re.search("[<>`{}]", s):
         has_control = True           # < and > delimit the target in the docformats' own link syntax, so the twin is a different document: count-based oracle
     if place == "annotation":
         try:
@@ -209,7 +212,7 @@ UNBLOCK = ["open", "os.mkdir", "os.symlink", "os.remove", "os.rmdir", "shutil.rm
     parts=lambda: [[p, f] for p in range(NP) for f in range(5)], timeout=(300, 1800), cls="E", tracing="concrete-after-choice", twin="first", unblock=UNBLOCK,
     code=["pydoctor.stanutils.flatten/html2stan (_RE_CONTROL)", "pydoctor.node2stan.HTMLTranslator", "pydoctor.templatewriter.writer.flattenToFile", "pydoctor.astbuilder._ValueFormatter", "pydoctor.epydoc.markup._pyval_repr",
           "pydoctor.templatewriter.pages.format_signature/format_decorators/format_class_signature", "pydoctor.epydoc2stan.FieldHandler", "twisted.web.template flattening (third party, exercised not modelled)"],
-    bounds={"quick": "25 hostile strings (element, attribute and event-handler injection with either quote, entity look-alikes, CDATA/comment delimiters, control characters, a reST raw directive smuggled behind each of 5 line separators, reST inline markup behind literal-ending backticks / leading white space) x 15 places (incl. hyperlink target and image alt text, which the translators write into attribute values, and the replacement string of twisted's @deprecated, which pydoctor pastes into reST) x 5 docformats (1 500 renders + harmless twins of equal length)", "thorough": "same"},
+    bounds={"quick": "25 hostile strings (element, attribute and event-handler injection with either quote, entity look-alikes, CDATA/comment delimiters, control characters, a reST raw directive smuggled behind each of 5 line separators, reST inline markup behind literal-ending backticks / leading white space) x 16 places (incl. the label of a cross-reference with an explicit target, hyperlink target and image alt text, which the translators write into attribute values, and the replacement string of twisted's @deprecated, which pydoctor pastes into reST) x 5 docformats (1 600 renders + harmless twins of equal length)", "thorough": "same"},
     outside="strings outside the menu; several hostile strings at once; reST raw/include directives; names (identifiers cannot hold markup)",
 )
 def h_markup(hi: int) -> bool:
